@@ -159,6 +159,38 @@ def cmeta(w: World, cid) -> dict:
     return w.m("c", cid)
 
 
+def _spec_size(spec) -> tuple:
+    n = nl = 0
+    for s in spec:
+        tn = type(s).__name__
+        if tn == "Group":
+            a, b = _spec_size(s.circuit_spec)
+            n += a
+            nl += b
+        else:
+            n += 1
+            nl += tn == "Loss"
+    return n, nl
+
+
+def csize(w: World, cid) -> tuple:
+    """(components, loss elements) of a pool circuit - harness bookkeeping that
+    keeps generated circuits within the run's bounds."""
+    m = cmeta(w, cid)
+    if "ncomp" not in m:
+        try:
+            m["ncomp"], m["nloss"] = _spec_size(w.pool["c"][cid]._get_circuit_spec())
+        except Exception:  # noqa: BLE001
+            m["ncomp"], m["nloss"] = 0, 0
+    return m["ncomp"], m["nloss"]
+
+
+def grow(w: World, cid, ncomp: int, nloss: int = 0) -> None:
+    a, b = csize(w, cid)
+    m = cmeta(w, cid)
+    m["ncomp"], m["nloss"] = a + ncomp, b + nloss
+
+
 def log_append(w: World, cid, entry) -> None:
     cmeta(w, cid)["log"].append(entry)
 
@@ -214,6 +246,8 @@ def _bs(w, o):
     cmeta(w, o["c"])["params"] |= pids_in(o.get("r"), o.get("loss"))
     log_append(w, o["c"], ["bs", o["m1"], o.get("m2"), o.get("r", 0.5),
                            o.get("loss", 0), o.get("conv", "Rx")])
+    lossy = isinstance(o.get("loss"), dict) or (o.get("loss") or 0) > 0
+    grow(w, o["c"], 3 if lossy else 1, 2 if lossy else 0)
 
 
 @op("ps", tg=_tg_c())
@@ -223,6 +257,8 @@ def _ps(w, o):
     w.call(c.ps, val(w, o["m"]), phi, loss)
     cmeta(w, o["c"])["params"] |= pids_in(o["phi"], o.get("loss"))
     log_append(w, o["c"], ["ps", o["m"], o["phi"], o.get("loss", 0)])
+    lossy = isinstance(o.get("loss"), dict) or (o.get("loss") or 0) > 0
+    grow(w, o["c"], 2 if lossy else 1, 1 if lossy else 0)
 
 
 @op("loss", tg=_tg_c())
@@ -231,6 +267,7 @@ def _loss(w, o):
     w.call(c.loss, val(w, o["m"]), val(w, o["l"]))
     cmeta(w, o["c"])["params"] |= pids_in(o["l"])
     log_append(w, o["c"], ["loss", o["m"], o["l"]])
+    grow(w, o["c"], 1, 1)
 
 
 @op("barrier", tg=_tg_c())
@@ -238,6 +275,7 @@ def _barrier(w, o):
     c = w.get("c", o["c"])
     w.call(c.barrier, None if o.get("modes") is None else [val(w, m) for m in o["modes"]])
     log_append(w, o["c"], ["barrier", o.get("modes")])
+    grow(w, o["c"], 1)
 
 
 def _swapdict(d):
@@ -250,6 +288,7 @@ def _mode_swaps(w, o):
     c = w.get("c", o["c"])
     w.call(c.mode_swaps, _swapdict(o["swaps"]))
     log_append(w, o["c"], ["mode_swaps", o["swaps"]])
+    grow(w, o["c"], 1)
 
 
 @op("herald", tg=_tg_c())
@@ -270,6 +309,8 @@ def _add(w, o):
     pm, sm = cmeta(w, o["parent"]), cmeta(w, o["sub"])
     pm["params"] |= sm["params"]
     pm["depth"] = max(pm.get("depth", 0), sm.get("depth", 0) + 1)
+    sa, sb = csize(w, o["sub"])
+    grow(w, o["parent"], sa + 1, sb)
     log_append(w, o["parent"], ["add", _copy.deepcopy(cmeta(w, o["sub"])["log"]),
                                 o.get("mode", 0), o.get("group", False)])
 
